@@ -89,11 +89,61 @@ func strip(v ssa.Value) ssa.Value {
 			} else {
 				return v
 			}
+		case *ssa.UnOp:
+			// load of a spilled parameter (address-taken struct parameter that is never written)
+			if p := spilledParam(x); p != nil {
+				v = p
+			} else {
+				return v
+			}
 		default:
 			return v
 		}
 	}
 	return v
+}
+
+// spilledParam: ld loads a local cell whose only write is `*cell = param` (no
+// field or element stores, address not escaping) => the load equals the parameter.
+func spilledParam(ld *ssa.UnOp) *ssa.Parameter {
+	if ld.Op != token.MUL {
+		return nil
+	}
+	a, ok := ld.X.(*ssa.Alloc)
+	if !ok {
+		return nil
+	}
+	refs := a.Referrers()
+	if refs == nil {
+		return nil
+	}
+	var param *ssa.Parameter
+	for _, r := range *refs {
+		switch x := r.(type) {
+		case *ssa.Store:
+			if x.Addr != a {
+				return nil
+			}
+			p, ok := x.Val.(*ssa.Parameter)
+			if !ok || param != nil {
+				return nil
+			}
+			param = p
+		case *ssa.UnOp:
+		case *ssa.FieldAddr:
+			if rr := x.Referrers(); rr != nil {
+				for _, q := range *rr {
+					if _, ok := q.(*ssa.UnOp); !ok {
+						return nil
+					}
+				}
+			}
+		case *ssa.DebugRef:
+		default:
+			return nil
+		}
+	}
+	return param
 }
 
 func intWidth(t types.Type) int {
